@@ -3,17 +3,26 @@
    Statements over the labelled transition system of server/server.go (LifecycleModel.v), for every
    callback configuration [k] (all 16), every number of connections and every interleaving
    ([reach GuardNow k s] = s is reachable from the initial state by ANY sequence of steps of the code
-   as it is now).  The tie to /repo is the trace validation of DispLifecycle.v; the lock discipline
-   of server.go is the regenerated obligation in Properties/C17_Skeleton.v. *)
+   as it is now, i.e. after the fix: commits 7acbe3f e8510bb 26d02fd f337e9e fb6684d c43a822 ac00631
+   17ec04c).  The behaviours before those commits are kept as variants of the same step function
+   ([GuardOld LoadOld TrackOld DropOld NilOld]); the comparison theorems at the end show that each
+   invariant fails for its variant, so none of them is vacuous.  The tie to /repo is the trace
+   validation of DispLifecycle.v; the lock discipline of server.go is the regenerated obligation in
+   Properties/C17_Skeleton.v. *)
 Require Import MB.LifecycleModel MB.proofs.LifecycleProofs.
 From Coq Require Import List ZArith.
 Import ListNotations.
 
-(* (a) no step ever calls a callback that is not set: the process never crashes on a nil function *)
+(* (a) no step ever calls a callback that is not set: the process never crashes on a nil function;
+   and Shutdown never dereferences a nil listener, whenever it is called *)
 Theorem C17_no_nil_callback :
   forall k s, reach GuardNow k s -> crashed s = false.
 Proof. exact never_crashes. Qed.
 Print Assumptions C17_no_nil_callback.
+Theorem C17_shutdown_never_panics :
+  forall k s, reach GuardNow k s -> sd s <> SdReturned EPanic.
+Proof. intros k s. exact (no_shutdown_panic GuardNow k s eq_refl). Qed.
+Print Assumptions C17_shutdown_never_panics.
 
 (* (b) activeConnectionCount = number of live connections, where live = trackConn(c,true) done and
    trackConn(c,false) not yet done -- including connections Shutdown has already deleted from the map
@@ -46,81 +55,109 @@ Theorem C17_rejected_never_tracked :
 Proof. exact rejected_stays. Qed.
 Print Assumptions C17_rejected_never_tracked.
 
-(* (d) when the connection goroutine is done the close callback has run exactly once iff it is set;
-   before that, and for rejected or dropped connections, not at all; never twice *)
+(* (d) the close callback, over all three call sites (the connection goroutine's deferred function, the
+   select on ctx.Done() after the accept stage, the refusal by trackConn after Shutdown): when a
+   connection that was let through is finished -- served and done, or dropped by serve -- the callback
+   has run exactly once iff it is set; before that, and for rejected connections, not at all; never
+   twice *)
 Theorem C17_close_callback_exactly_once :
   forall k s c x, reach GuardNow k s -> get s c = Some x ->
-  close_cb x = match ph x with PDone => if on_close k then 1 else 0 | _ => 0 end.
+  close_cb x = match ph x with PDone | PDropped => if on_close k then 1 else 0 | _ => 0 end.
 Proof. exact close_cb_exact. Qed.
 Print Assumptions C17_close_callback_exactly_once.
+(* ... and no accepted connection is left behind: while it is in the accepted stage serve is working
+   on it, serve has not returned, and (C17_serve_progress) serve always has a next step *)
+Theorem C17_accepted_never_abandoned :
+  forall k s c x, reach GuardNow k s -> get s c = Some x -> ph x = PAccepted ->
+  sp_conn (sp s) = Some c /\ returned (sp s) = false.
+Proof. exact accepted_is_in_serves_hands. Qed.
+Print Assumptions C17_accepted_never_abandoned.
+Theorem C17_dropped_is_closed :
+  forall k s c x, reach GuardNow k s -> get s c = Some x -> ph x = PDropped ->
+  sock x = false /\ inmap x = false /\ close_cb x = (if on_close k then 1 else 0).
+Proof. exact dropped_closed. Qed.
+Print Assumptions C17_dropped_is_closed.
 
-(* (e) graceful shutdown.  At the moment Shutdown returns nil: listener closed, shutdown flag set,
-   mutex released, serve (if it has returned) returned ErrServerClosed, the map is empty and every
-   live connection's socket has been closed. *)
-Theorem C17_shutdown_returns_nil :
-  forall k s s', reach GuardNow k s -> step GuardNow k s LSdReturn = Some s' -> sd s' = SdReturned ENil ->
-  lis_open s' = false /\ shut s' = true /\ mu s' = false /\
-  (forall e, sp s' = SReturned e -> e = EClosed) /\
-  (forall c x, get s' c = Some x -> inmap x = false /\ (is_live (ph x) = true -> sock x = false)).
-Proof. exact shutdown_return_nil. Qed.
-Print Assumptions C17_shutdown_returns_nil.
+(* a connection accepted while the context is cancelled: serve closes it, runs the close callback
+   (iff set) and returns ErrServerClosed -- these four steps are enabled one after the other *)
+Theorem C17_accept_then_cancel_closed :
+  forall k s c, reach GuardNow k s -> sp s = SPassed c -> cancelled s = true ->
+  exists s' x', run GuardNow k s [LCtxDone c; LDropClose c; LDropCb c; LServeReturn EClosed] = Some s' /\
+    sp s' = SReturned EClosed /\ get s' c = Some x' /\ ph x' = PDropped /\ sock x' = false /\
+    close_cb x' = (if on_close k then 1 else 0) /\
+    step GuardNow k s (LCtxPass c) = None.
+Proof. exact cancel_drops_accepted. Qed.
+Print Assumptions C17_accept_then_cancel_closed.
 
-(* ... and from then on: Accept fails, and the only error serve can return is ErrServerClosed *)
-Theorem C17_after_shutdown_serve_closed :
-  forall v k s, reach v k s -> (match sd s with SdReturned ENil => True | _ => False end) ->
-  lis_open s = false /\ shut s = true /\ (forall e, sp s = SReturned e -> e = EClosed) /\
-  (forall c s', step v k s (LAccept c) = Some s' -> False) /\
-  (forall e s', step v k s (LServeReturn e) = Some s' -> e = EClosed).
-Proof. exact after_good_shutdown. Qed.
-Print Assumptions C17_after_shutdown_serve_closed.
+(* (e) graceful shutdown, FULL statement.  Once Shutdown has returned nil (and for as long as that is
+   its last result): the flag is set and the mutex free; the listener is closed as soon as serve is in
+   its loop (if serve had not started yet it will not accept at all); Accept never succeeds again; serve
+   has returned / can only return ErrServerClosed; the map is empty and EVERY live connection's socket
+   has been closed -- no connection survives, whenever it was accepted. *)
+Theorem C17_shutdown_returned_nil :
+  forall k s, reach GuardNow k s -> sd s = SdReturned ENil ->
+  shut s = true /\ mu s = false /\ (in_loop (sp s) = true -> lis_open s = false) /\
+  (forall e, sp s = SReturned e -> e = EClosed) /\
+  (forall c s', step GuardNow k s (LAccept c) = Some s' -> False) /\
+  (forall e s', step GuardNow k s (LServeReturn e) = Some s' -> e = EClosed) /\
+  (forall c x, get s c = Some x -> inmap x = false /\ (is_live (ph x) = true -> sock x = false)).
+Proof. exact good_shutdown. Qed.
+Print Assumptions C17_shutdown_returned_nil.
 
-(* Full statement wanted for the replies: "if Shutdown returned nil, no connection it closed had a
-   started handler whose reply was still owed, and no reply is lost" ([lost x = 0] for every x).
-   The code as it is does NOT satisfy it (C17_shutdown_load_race_refuted below).  Proved: a reply can
-   only be lost on a connection that Shutdown closed through the fall-through
-   `!CAS(idle,closed) && Load() == handling` having loaded `idle`; connections closed by a successful
-   CAS owe nothing, those found `closed` had left handle() already. *)
-Theorem C17_shutdown_replies_partial :
-  forall k s, reach GuardNow k s -> forall c x, get s c = Some x ->
-    (lost x <> 0 -> sd_via x = ViaLoadIdle) /\
-    (sd_via x = ViaCas -> owed x = [] /\ cst x = CClosed) /\
-    (sd_via x = ViaLoadClosed -> cst x = CClosed) /\
-    (handling_ph (ph x) = true -> sock x = false -> sd_via x = ViaLoadIdle).
-Proof. exact shutdown_no_lost_reply. Qed.
-Print Assumptions C17_shutdown_replies_partial.
+(* replies, in EVERY reachable state and for ALL of Shutdown's paths: no reply is ever lost to a close
+   by the server ([lost] counts writes of owed replies that failed on a socket the server side had
+   closed); a socket the server side has closed owes no reply; whatever Shutdown closed (sd_via set:
+   after its successful compare-and-swap, or after finding the goroutine gone) is outside an exchange
+   and owes nothing: every request whose handler had started got its complete reply before the
+   connection was closed.  [owed] = requests whose handler started and whose reply is still due (a
+   handler that panicked, or a write that failed on the peer's side, ends the debt). *)
+Theorem C17_shutdown_replies_complete :
+  forall k s c x, reach GuardNow k s -> get s c = Some x ->
+  lost x = 0 /\
+  (sock x = false -> owed x = []) /\
+  (sd_via x <> ViaNone -> cst x = CClosed /\ owed x = [] /\ handling_ph (ph x) = false) /\
+  (cst x = CIdle -> owed x = []) /\ (handling_ph (ph x) = true -> cst x = CHandling) /\ (owed x <> [] -> cst x = CHandling).
+Proof. exact replies_complete. Qed.
+Print Assumptions C17_shutdown_replies_complete.
+Theorem C17_shutdown_cas_hits_idle_only :
+  forall k s c s' t a, reach GuardNow k s -> step GuardNow k s (LSdCas c) = Some s' -> sd s' = SdClosing c t a ->
+  exists x, get s c = Some x /\ cst x = CIdle /\ owed x = [] /\ handling_ph (ph x) = false.
+Proof. exact shutdown_cas_hits_idle_only. Qed.
+Print Assumptions C17_shutdown_cas_hits_idle_only.
+Theorem C17_shutdown_load_closes_ended_only :
+  forall k s c s' t a, step GuardNow k s (LSdLoad c) = Some s' -> sd s' = SdClosing c t a ->
+  exists x, get s c = Some x /\ cst x = CClosed.
+Proof. exact shutdown_load_closes_ended_only. Qed.
+Print Assumptions C17_shutdown_load_closes_ended_only.
 
-Theorem C17_shutdown_load_race_refuted :
-  exists s x, reach GuardNow cfg_none s /\ sd s = SdReturned ENil /\ get s 0 = Some x /\
-              lost x = 1 /\ started x = 2 /\ replied x = 1 /\ sd_via x = ViaLoadIdle.
-Proof. exact shutdown_load_race_loses_reply. Qed.
-Print Assumptions C17_shutdown_load_race_refuted.
+(* a connection accepted before Shutdown but reaching trackConn after it is refused, closed by serve
+   and reported to the close callback (iff set); the counter is not touched *)
+Theorem C17_late_connection_not_served :
+  forall k s c, reach GuardNow k s -> sp s = STrack c -> shut s = true -> mu s = false ->
+  exists s' x', run GuardNow k s [LTrack c; LDropClose c; LDropCb c] = Some s' /\
+    sp s' = SLoop /\ get s' c = Some x' /\ ph x' = PDropped /\ sock x' = false /\ inmap x' = false /\
+    close_cb x' = (if on_close k then 1 else 0) /\ count s' = count s.
+Proof. exact shutdown_drops_untracked. Qed.
+Print Assumptions C17_late_connection_not_served.
 
-(* "idle connections are closed" holds at the moment of the return (above) but not afterwards: *)
-Theorem C17_accept_during_shutdown_refuted :
-  exists s x, reach GuardNow cfg_none s /\ sd s = SdReturned ENil /\ get s 0 = Some x /\
-              ph x = PIdle /\ sock x = true /\ inmap x = true /\ replied x = 1.
-Proof. exact late_track_survives_shutdown. Qed.
-Print Assumptions C17_accept_during_shutdown_refuted.
-
-(* "the close callback runs for every accepted connection" fails for a connection accepted while
-   the context is cancelled: serve returns and drops it unclosed *)
-Theorem C17_accept_then_cancel_refuted :
-  exists s x, reach GuardNow cfg_all s /\ sp s = SReturned EClosed /\ get s 0 = Some x /\ ph x = PAccepted /\
-              sock x = true /\ close_cb x = 0 /\
-              (forall l, label_gor l = GConn 0 -> step GuardNow cfg_all s l = None) /\
-              (forall l, label_gor l = GServe -> step GuardNow cfg_all s l = None).
-Proof. exact accept_then_cancel_leaks. Qed.
-Print Assumptions C17_accept_then_cancel_refuted.
-
-(* Shutdown called before serve has published the listener panics in the caller's goroutine *)
-Theorem C17_shutdown_before_serve_refuted :
-  exists s, run GuardNow cfg_none init [LSdCall; LSdBegin] = Some s /\ sd s = SdReturned EPanic.
-Proof. exact shutdown_before_serve_panics. Qed.
-Print Assumptions C17_shutdown_before_serve_refuted.
+(* Shutdown before serve: serve finds the flag when it publishes its listener and can then only
+   return ErrServerClosed (no Accept, no callback) *)
+Theorem C17_serve_after_shutdown :
+  forall k s s', shut s = true -> step GuardNow k s LPublish = Some s' ->
+  sp s' = SLeaving false /\
+  (forall l s'', is_serve l = true -> step GuardNow k s' l = Some s'' -> l = LServeReturn EClosed).
+Proof. exact publish_after_shutdown. Qed.
+Print Assumptions C17_serve_after_shutdown.
+Theorem C17_shutdown_before_serve_run :
+  forall k, exists s, run GuardNow k init [LSdCall; LSdBegin; LSdReturn; LServeCb; LPublish; LServeReturn EClosed] = Some s /\
+    sd s = SdReturned ENil /\ sp s = SReturned EClosed /\ crashed s = false /\ lis_open s = false /\ conns s = [].
+Proof. exact now_shutdown_before_serve_ok. Qed.
+Print Assumptions C17_shutdown_before_serve_run.
 
 (* (f) cancel.  Cancelling enables the AfterFunc goroutine's step that closes the listener (and it
-   stays enabled until taken); once the listener is closed serve takes at most 4 more steps in ANY
-   continuation, has a next step whenever Shutdown does not hold the mutex, and a ServeReturn step
+   stays enabled until taken); once the listener is closed serve takes at most 6 more steps in ANY
+   continuation (the longest: accept callback, select, trackConn refusing, close, close callback,
+   Accept failing), has a next step whenever Shutdown does not hold the mutex, and a ServeReturn step
    after a cancel (or shutdown) can only carry ErrServerClosed. *)
 Theorem C17_cancel_closes_listener :
   forall v k s, crashed s = false -> cancelled s = true -> published (sp s) = true -> returned (sp s) = false ->
@@ -129,10 +166,10 @@ Proof. exact cancel_enables_close. Qed.
 Print Assumptions C17_cancel_closes_listener.
 Theorem C17_serve_bounded_after_close :
   forall v k ls s s', lis_open s = false -> run v k s ls = Some s' ->
-  count_serve ls + serve_left (sp s') <= serve_left (sp s) /\ count_serve ls <= 4 /\ lis_open s' = false.
+  count_serve ls + serve_left (sp s') <= serve_left (sp s) /\ count_serve ls <= 6 /\ lis_open s' = false.
 Proof.
   intros v k ls s s' Hl H. destruct (serve_bounded v k ls s s' Hl H) as [A B].
-  split; [exact A|]. split; [exact (serve_bounded_4 v k ls s s' Hl H)|exact B].
+  split; [exact A|]. split; [exact (serve_bounded_6 v k ls s s' Hl H)|exact B].
 Qed.
 Print Assumptions C17_serve_bounded_after_close.
 Theorem C17_serve_progress :
@@ -146,21 +183,75 @@ Theorem C17_serve_returns_closed :
 Proof. exact serve_return_closed. Qed.
 Print Assumptions C17_serve_returns_closed.
 
-(* the invariant is not vacuous: with the guard the code had before fix 7acbe3f (OnAcceptConnFunc
-   guarding the call of OnCloseConnFunc) the same step function reaches a crash in the accept-only
-   configuration and never calls the callback in the close-only configuration *)
+(* orderings the accounting and the graceful shutdown rest on (and which the trace validation
+   therefore enforces on the real server): trackConn(c,true) precedes the next Accept; the state atom
+   stays `handling` until the reply is written (Store(idle) after Write) -- part of
+   C17_shutdown_replies_complete *)
+Theorem C17_track_before_next_accept :
+  forall v k s c s', reach v k s -> step v k s (LAccept c) = Some s' ->
+  forall d x, get s d = Some x -> ph x <> PAccepted.
+Proof. exact accept_after_track. Qed.
+Print Assumptions C17_track_before_next_accept.
+
+(* ---- the invariants are not vacuous: the code before each fix violates the corresponding one ---- *)
+(* before 7acbe3f (OnAcceptConnFunc guarding the call of OnCloseConnFunc): (a) and (d) fail *)
 Theorem C17_callback_guard_refuted :
   (exists s, reach GuardOld cfg_accept_only s /\ crashed s = true) /\
   (exists s x, reach GuardOld cfg_close_only s /\ get s 0 = Some x /\ ph x = PDone /\ close_cb x = 0).
 Proof. split; [exact old_guard_crashes|exact old_guard_skips_close_cb]. Qed.
 Print Assumptions C17_callback_guard_refuted.
+(* before fb6684d (`Load() == connHandling`): Shutdown returns nil and a started handler's reply is lost;
+   the same schedule is not a run of the current step function, its legal continuation loses nothing *)
+Theorem C17_old_shutdown_load_race_refuted :
+  exists s x, reach LoadOld cfg_none s /\ sd s = SdReturned ENil /\ get s 0 = Some x /\
+              lost x = 1 /\ started x = 2 /\ replied x = 1 /\ sd_via x = ViaLoadIdle.
+Proof. exact old_load_race_loses_reply. Qed.
+Print Assumptions C17_old_shutdown_load_race_refuted.
+Theorem C17_shutdown_load_race_closed :
+  run GuardNow cfg_none init load_race_run = None /\
+  exists s x, run GuardNow cfg_none init load_race_run_now = Some s /\ sd s = SdReturned ENil /\ get s 0 = Some x /\
+              lost x = 0 /\ started x = 2 /\ replied x = 2 /\ owed x = [] /\ sd_via x = ViaCas /\ sock x = false.
+Proof. exact now_load_race_closed. Qed.
+Print Assumptions C17_shutdown_load_race_closed.
+(* before c43a822: a connection tracked after Shutdown returned nil is served *)
+Theorem C17_old_accept_during_shutdown_refuted :
+  exists s x, reach TrackOld cfg_none s /\ sd s = SdReturned ENil /\ get s 0 = Some x /\
+              ph x = PIdle /\ sock x = true /\ inmap x = true /\ replied x = 1.
+Proof. exact old_late_track_survives_shutdown. Qed.
+Print Assumptions C17_old_accept_during_shutdown_refuted.
+Theorem C17_accept_during_shutdown_closed :
+  run GuardNow cfg_close_only init late_track_run = None /\
+  exists s x, run GuardNow cfg_close_only init late_track_run_now = Some s /\ sd s = SdReturned ENil /\
+              sp s = SReturned EClosed /\ get s 0 = Some x /\
+              ph x = PDropped /\ sock x = false /\ inmap x = false /\ close_cb x = 1 /\ count s = 0%Z.
+Proof. exact now_late_track_dropped. Qed.
+Print Assumptions C17_accept_during_shutdown_closed.
+(* before ac00631: a connection accepted while the context is cancelled is left open and unreported *)
+Theorem C17_old_accept_then_cancel_refuted :
+  exists s x, reach DropOld cfg_all s /\ sp s = SReturned EClosed /\ get s 0 = Some x /\ ph x = PAccepted /\
+              sock x = true /\ close_cb x = 0 /\
+              (forall l, label_gor l = GConn 0 -> step DropOld cfg_all s l = None) /\
+              (forall l, label_gor l = GServe -> step DropOld cfg_all s l = None).
+Proof. exact old_accept_then_cancel_leaks. Qed.
+Print Assumptions C17_old_accept_then_cancel_refuted.
+Theorem C17_accept_then_cancel_run :
+  run GuardNow cfg_all init accept_cancel_run = None /\
+  exists s x, run GuardNow cfg_all init accept_cancel_run_now = Some s /\ sp s = SReturned EClosed /\ get s 0 = Some x /\
+              ph x = PDropped /\ sock x = false /\ close_cb x = 1 /\ count s = 0%Z.
+Proof. exact now_accept_then_cancel_closed. Qed.
+Print Assumptions C17_accept_then_cancel_run.
+(* before 17ec04c: Shutdown before serve panics *)
+Theorem C17_old_shutdown_before_serve_refuted :
+  exists s, run NilOld cfg_none init [LSdCall; LSdBegin] = Some s /\ sd s = SdReturned EPanic.
+Proof. exact old_shutdown_before_serve_panics. Qed.
+Print Assumptions C17_old_shutdown_before_serve_refuted.
 
 (* non-vacuity of (e) and (f) *)
 Example C17_happy_run :
-  exists s s' x, run GuardNow cfg_all init happy_run = Some s /\ step GuardNow cfg_all s LSdReturn = Some s' /\
-                 sd s' = SdReturned ENil /\ get s' 0 = Some x /\ sd_via x = ViaCas /\ replied x = 1 /\ owed x = [] /\
-                 sock x = false /\ acc_arg x = Some 1%Z /\
-                 step GuardNow cfg_all s' (LServeReturn EClosed) <> None.
+  exists s x, run GuardNow cfg_all init happy_run = Some s /\
+              sd s = SdReturned ENil /\ get s 0 = Some x /\ sd_via x = ViaCas /\ replied x = 1 /\ owed x = [] /\
+              sock x = false /\ acc_arg x = Some 1%Z /\ in_loop (sp s) = true /\
+              step GuardNow cfg_all s (LServeReturn EClosed) <> None.
 Proof. exact happy_run_example. Qed.
 Example C17_cancel_run :
   exists s, run GuardNow cfg_all init [LServeCb; LPublish; LAccept 0; LAcceptCb 0 1 false; LCancel; LAfterClose] = Some s /\
